@@ -35,11 +35,13 @@ func familyDiscovery(t *testing.T) {
 			n := []int{0, 1, 3, 4, 5, 6, 9, 10, 11, 17, 26, 40}[rng.Intn(12)]
 			var script []dOutcome
 			for i := 0; i < n; i++ {
-				switch rng.Intn(5) {
+				switch rng.Intn(6) {
 				case 0:
 					script = append(script, dOutcome{kind: "refused"})
 				case 1:
 					script = append(script, dOutcome{kind: "5xx"})
+				case 5: // 200 OK with a body that is not a JSON document at all
+					script = append(script, dOutcome{kind: []string{"empty200", "ws200", "truncated", "html", "array"}[rng.Intn(5)]})
 				case 2:
 					script = append(script, dOutcome{kind: "malformed"})
 				case 3:
@@ -64,7 +66,7 @@ func familyDiscovery(t *testing.T) {
 			}
 			for i := 0; i < rng.Intn(4); i++ {
 				for k := 0; k < rng.Intn(8); k++ {
-					script = append(script, dOutcome{kind: []string{"refused", "5xx", "malformed"}[rng.Intn(3)]})
+					script = append(script, dOutcome{kind: []string{"refused", "5xx", "malformed", "empty200", "ws200", "truncated"}[rng.Intn(6)]})
 				}
 				script = append(script, mkDoc())
 			}
@@ -85,6 +87,16 @@ func familyDiscovery(t *testing.T) {
 					return 503, "unavailable", o.dur, false
 				case "malformed":
 					return 200, "{not json", o.dur, false
+				case "empty200":
+					return 200, "", o.dur, false
+				case "ws200":
+					return 200, " \n\t ", o.dur, false
+				case "truncated":
+					return 200, `{"issuer":"https://idp.test","authorization_endp`, o.dur, false
+				case "html":
+					return 200, "<html><body>maintenance</body></html>", o.dur, false
+				case "array":
+					return 200, "[]", o.dur, false
 				case "slowfail":
 					return 0, "", o.dur, true
 				default:
@@ -122,12 +134,66 @@ func familyDiscovery(t *testing.T) {
 				}
 			}
 			_ = firstOKAttempt
+			// ---- C20 oracle (heals within a bounded time): every failed attempt costs at most its own duration plus the largest back-off
+			// plus the pause between rounds; by then the first healthy answer has been obtained and the instance must serve
+			healBound := time.Duration(0)
+			firstHealthyHasIssuer := true
+			for _, o := range script {
+				if o.kind == "ok" {
+					healBound += o.dur
+					firstHealthyHasIssuer = !o.issuerEmpty
+					break
+				}
+				healBound += o.dur + 60*time.Second
+			}
+			healBound += 5*time.Second + 137*time.Millisecond
+			healProbed := false
+			probeHeal := func() {
+				if healProbed || !firstHealthyHasIssuer || time.Since(t0) < healBound {
+					return
+				}
+				healProbed = true
+				req := httptest.NewRequest("GET", "http://app.test/x", nil)
+				rec := httptest.NewRecorder()
+				at := time.Now()
+				inst.ServeHTTP(rec, req)
+				obs := M{"r": fmt.Sprintf("other:%d", rec.Code)}
+				loc := rec.Header().Get("Location")
+				if rec.Code == 302 && strings.HasPrefix(loc, "https://") {
+					obs = M{"r": "serve"}
+					rest := strings.TrimPrefix(loc, "https://")
+					if i := strings.IndexAny(rest, "./"); i > 0 {
+						obs["doc"] = rest[:i]
+					}
+				} else if rec.Code == 503 {
+					obs = M{"r": "503"}
+				}
+				m := M{"op": "dreq", "at": at.UnixNano(), "giveUp": nil, "obs": obs, "note": "probe at the healing bound"}
+				hist = append(hist, m)
+				T.emit(m)
+				T.stat("discovery.heal-probes")
+				if obs["r"] != "serve" {
+					T.oracle("C20", "instance does not serve within the bounded time after the provider became healthy", M{"status": rec.Code, "bound_s": healBound.Seconds(), "since_start_s": time.Since(t0).Seconds()}, replay())
+				}
+			}
 			// ---- requests at odd instants (never exactly on a timer boundary)
 			nReq := 4 + rng.Intn(8)
 			for q := 0; q < nReq; q++ {
 				gap := []time.Duration{0, 3 * time.Second, 17 * time.Second, 45 * time.Second, 2 * time.Minute, 11 * time.Minute, 50 * time.Minute, 65 * time.Minute, 3 * time.Hour}[rng.Intn(9)]
+				// if the healing bound falls into this gap, probe right there
+				if !healProbed && firstHealthyHasIssuer && time.Since(t0) < healBound && time.Since(t0)+gap > healBound {
+					d0 := healBound - time.Since(t0)
+					time.Sleep(d0)
+					synctest.Wait()
+					probeHeal()
+					gap -= d0
+					if gap < 0 {
+						gap = 0
+					}
+				}
 				time.Sleep(gap + time.Duration(100+rng.Intn(800))*time.Millisecond + time.Duration(rng.Intn(1000))*time.Microsecond)
 				synctest.Wait()
+				probeHeal()
 				at := time.Now()
 				var giveUp interface{}
 				req := httptest.NewRequest("GET", "http://app.test/x", nil)
